@@ -61,30 +61,52 @@ func (c *Ctx) ecmaAnalysis() (*pta.Analysis, *ssa.Function) {
 
 // canonFresh: core.Canonicalize qualifies as a per-call-site fresh-result
 // function if its non-nil result is only ever the variable that json.Unmarshal
-// filled from bytes produced by json.Marshal in the same call.
+// filled from bytes produced by json.Marshal in the same call.  The round trip
+// may sit in a helper of Canonicalize that is handed the address of the
+// variable (and hands the bytes on through results or parameters).
 func (c *Ctx) canonFresh() map[*ssa.Function]bool {
 	canon := c.P.Func("core", "", "Canonicalize")
 	if canon == nil {
 		return nil
 	}
-	var target ssa.Value
-	marshal := false
-	ssau.Instrs(canon, func(in ssa.Instruction) {
-		if cl, ok := in.(*ssa.Call); ok {
-			switch ssau.CalleeName(cl) {
-			case "encoding/json.Unmarshal":
-				t := cl.Common().Args[1]
-				if mi, isMI := t.(*ssa.MakeInterface); isMI {
-					t = mi.X
-				}
-				target = t
-			case "encoding/json.Marshal":
-				marshal = true
+	scope := pkgClosure(canon)
+	var al *ssa.Alloc
+	unmarshals, fromMarshal := 0, true
+	for _, f := range scope {
+		ssau.Instrs(f, func(in ssa.Instruction) {
+			cl, ok := in.(*ssa.Call)
+			if !ok || ssau.CalleeName(cl) != "encoding/json.Unmarshal" {
+				return
 			}
-		}
-	})
-	al, isAl := target.(*ssa.Alloc)
-	if !isAl || !marshal {
+			unmarshals++
+			// the variable that is filled: a local of Canonicalize (its address may have come in as a parameter)
+			for _, t := range deepDefs(cl.Common().Args[1], scope) {
+				a, isAl := t.(*ssa.Alloc)
+				if !isAl || a.Parent() != canon || (al != nil && al != a) {
+					fromMarshal = false
+					return
+				}
+				al = a
+			}
+			// the bytes that are decoded: what json.Marshal returned in this call
+			srcs := deepDefs(cl.Common().Args[0], scope)
+			for _, s := range srcs {
+				ex, isEx := s.(*ssa.Extract)
+				if !isEx || ex.Index != 0 {
+					fromMarshal = false
+					return
+				}
+				m, isCall := ex.Tuple.(*ssa.Call)
+				if !isCall || ssau.CalleeName(m) != "encoding/json.Marshal" {
+					fromMarshal = false
+				}
+			}
+			if len(srcs) == 0 {
+				fromMarshal = false
+			}
+		})
+	}
+	if al == nil || unmarshals == 0 || !fromMarshal {
 		return nil
 	}
 	for _, b := range canon.Blocks {
